@@ -316,6 +316,16 @@ pub fn replay_c03(v: &Value) -> Vec<Failure> {
             v2
         }
         Some("serde_crc") => eval_crc_serde(&buf),
+        Some("equiv_nostd") => {
+            let mut worker = crate::configs::Worker::spawn();
+            let a = worker.ask(&["R".to_string(), format!("F {}", bits::hex(&buf))]);
+            let got = a.get(1).and_then(|x| x.strip_prefix("Ok crc=")).and_then(|r| u32::from_str_radix(r.lines().next().unwrap_or("").trim(), 16).ok());
+            let req = bits::required_len(buf[0] >> 3);
+            match got {
+                Some(g) if buf.len() >= req && g != bits::refcrc(&buf[..req]) => vec![(format!("C03/no_std/syndrome/{}", refdec::class_of(&buf).split('/').next().unwrap_or("")), format!("alloc-only build: bitwise division gives {:06x}, the library reports {g:06x}", bits::refcrc(&buf[..req])))],
+                _ => vec![],
+            }
+        }
         Some("meaning") => {
             let t = v.get("target").and_then(|t| t.as_u64()).unwrap_or(0) as u32;
             eval_crc_meaning(&buf, t, v.get("what").and_then(|t| t.as_str()).unwrap_or("meaning"))
@@ -407,6 +417,36 @@ pub fn run_c03(ctx: &Ctx) -> ! {
     let mut brng = ctx.rng(300, 0);
     let bases = base_frames(&mut brng);
     let bases = &bases;
+    // ---- the same checksum in the alloc-only (no_std) build: a sample decoded by the worker
+    // process that links the library without std
+    let mut pre = Stats::default();
+    {
+        use crate::configs::Worker;
+        let mut rng = ctx.rng(303, 0);
+        let mut worker = Worker::spawn();
+        let n = ctx.tier.pick(20_000usize, 400_000);
+        let frames: Vec<Vec<u8>> = (0..n).map(|i| { let mut b = gen_frame(&mut rng); if i % 3 == 0 && bits::df_supported(b[0] >> 3) { bits::fix_parity(&mut b, if i % 6 == 0 { 0 } else { rng.bits(24) as u32 }); } b }).collect();
+        let mut reported = false;
+        for chunk in frames.chunks(512) {
+            let reqs: Vec<String> = chunk.iter().map(|b| format!("F {}", bits::hex(b))).collect();
+            let answers = worker.ask(&reqs);
+            for (b, a) in chunk.iter().zip(answers.iter()) {
+                let Some(rest) = a.strip_prefix("Ok crc=") else { continue };
+                let got = u32::from_str_radix(rest.lines().next().unwrap_or("").trim(), 16).unwrap_or(u32::MAX);
+                let req = bits::required_len(b[0] >> 3);
+                if b.len() < req {
+                    continue;
+                }
+                pre.eval();
+                let want = bits::refcrc(&b[..req]);
+                if got != want && !reported {
+                    reported = true;
+                    pre.fail(Failure { sig: format!("C03/no_std/syndrome/{}", refdec::class_of(b).split('/').next().unwrap_or("")), msg: format!("alloc-only build: bitwise division gives {want:06x}, the library reports {got:06x} (frame {})", bits::hex(b)), replay: json!({"kind":"frame","check":"equiv_nostd","hex":bits::hex(b)}) });
+                }
+            }
+        }
+        pre.class_n("checksum in the alloc-only build", n as u64);
+    }
     let mut st = parallel(|w, st| {
         let mut rng = ctx.rng(3, w as u64);
         // ---- oracle 1: equivalence with bitwise division
@@ -598,6 +638,7 @@ pub fn run_c03(ctx: &Ctx) -> ! {
             }
         }
     });
+    st.merge(pre);
     st.samples.push(json!({"base_frames": bases.iter().map(|b| bits::hex(b)).collect::<Vec<_>>()}));
     st.samples.push(json!({"error_pattern_example": {"base": bits::hex(&bases[0]), "flipped_bits": [3, 40, 77]}}));
     st.exhaustive.push("all frames with one non-zero byte besides the DF byte, every accepted DF".into());
